@@ -125,6 +125,34 @@ pub fn run(ctx: &Ctx) -> Outcome {
         p.samples.push(json!({"link_mtu": 9000, "plan": []}));
         out.parts.push(p);
     }
+    // "all buffer configurations": receive buffers between the initial and the largest segment size, both
+    // directions busy while the segment size grows
+    {
+        let mut p = Part::fe("duo:small-rx-buffer-on-probing-path");
+        let mut classes = std::collections::BTreeSet::new();
+        for rx_buf in ctx.tier.pick(vec![600usize, 1000, 1400], vec![530, 600, 800, 1000, 1200, 1400, 1500, 3000]) {
+            let mut scn = lib::small_rx_probing(rx_buf);
+            scn.a.inactivity_ms = 30_000;
+            scn.b.inactivity_ms = 30_000;
+            scn.horizon_s = 20;
+            let cfg = ExploreCfg { max_dev: ctx.tier.pick(0, 1), min_k: 2, fates: vec![crate::duo::sim::Fate::Drop], eligible: &always, judge: &judge, max_runs: ctx.tier.pick(5_000, 100_000) };
+            let r = explore(ctx, &scn, &cfg);
+            p.evaluations += r.runs;
+            p.distinct_nontrivial += r.distinct_traces;
+            for c in r.outcome_classes.keys() {
+                classes.insert(format!("{rx_buf}:{c}"));
+            }
+            if let Some(c) = &r.capped {
+                p.caps_hit.push(c.clone());
+                p.exhaustive = false;
+            }
+            out.violations.extend(findings_to_violations(&scn, &r.findings, &judge));
+        }
+        p.distinct_outcomes = classes.len() as u64;
+        p.bound = format!("A: 20 kB to B over a link MTU of 1500 with a receive buffer of {} bytes, B: 3 kB to A from 400 ms on; {}", ctx.tier.pick("{600, 1000, 1400}", "{530 .. 3000} (8 values)"), ctx.tier.pick("the loss-free run", "the loss-free run and every single drop"));
+        p.samples.push(json!({"rx_buf": 1000, "plan": []}));
+        out.parts.push(p);
+    }
     // clause 3: wake-ups / immediacy / no deadlock, in every state of the flow and close drivers (solo)
     {
         use super::solo_drivers::*;
